@@ -284,6 +284,7 @@ class Parser:
                 self.next()
                 fname = self.ident()
                 depth = 0
+                toks = []
                 while True:
                     t = self.next()
                     if t.kind == "eof":
@@ -294,7 +295,10 @@ class Parser:
                             self.next()
                         self.sym(";")
                         break
-                decls.append({"decl": "function", "name": fname})
+                    toks.append(str(t.val).lower())
+                # token text of "(<params>) return <type> is begin <body>": the simulator recognises the
+                # boolean -> std_logic helper by this shape, whatever it is called
+                decls.append({"decl": "function", "name": fname, "tokens": toks})
             elif self.is_kw("signal") or self.is_kw("variable") or self.is_kw("constant"):
                 kind = self.next().val.lower()
                 line = self.peek().line
